@@ -94,6 +94,8 @@ def run(prop, tier, replay):
         "exhaustive": False,
     }
     cov.update(dap)
+    from checks.dbgep import endpoint_stage
+    cov.update(endpoint_stage(rep, tier, work, "debug"))
     return rep.finish(cov, assumptions=[
         "the runtime's ST_DEBUG_TRACE lines are emitted under the DebugState mutex (linearization points); a line that no longer parses is a tool error",
         "which breakpoint set a SetBreakpoints call installed and when set_current_thread ran are not logged: TLC infers them",
